@@ -9,6 +9,7 @@ import F3.Proofs.NoFailureBridgeP
 import F3.Proofs.NetworkQuiet
 import F3.Proofs.SignedNetwork
 import F3.Proofs.EmittedValidBridge
+import F3.Proofs.EmittedValidParticipantBridge
 /-!
 # C01 — Agreement
 
@@ -694,4 +695,28 @@ theorem honest_emissions_deliverable {t : Table} {F : Finset Pid} {W : Votes} (N
   F3.EmittedValid.emitted_deliverable N p hp hF hpos r ph v tk j hm now
 
 end HonestEmissions
+end F3.Props.C01
+
+namespace F3.Props.C01
+section HonestEmissionsParticipant
+open F3 F3.Instance F3.Bridge
+
+/-- **… also when the members are driven through the participant API** (`gpbft.Participant`: pre-start queue, drain
+through `ReceiveMany` in any map order): in a `NetworkVP`, every message an honest member with positive power sends —
+or re-sends on a rebroadcast request (`F3.EmittedValid.wireOf`: the requests expanded against the member's earlier
+broadcasts) — is a delivery admissible at any member at any time (`PMsgOK`: of this instance, validated), before or
+after the receiver's instance has begun. (`F3.Props.C07.emitted_valid_participant`, `wire_valid_participant`.) -/
+theorem honest_emissions_deliverable_participant {t : Table} {F : Finset Pid} {W : Votes} (N : NetworkVP t F W)
+    (p : Pid) (hp : p ∈ (ids t).toFinset) (hF : p ∉ F) (hpos : 0 < t.power p) (m : Msg)
+    (hm : m ∈ F3.EmittedValid.wireOf p (prun (N.runs p hp hF).order
+      (pinit (N.runs p hp hF).cfg t (N.runs p hp hF).input) (N.runs p hp hF).ops).2) (now : Int) :
+    POpP (PMsgOK W t) (.recv now m) :=
+  F3.EmittedValid.emitted_deliverableP N p hp hF hpos m hm now
+
+/-- every broadcast effect is on the wire, so the statement covers plain broadcasts -/
+theorem broadcast_on_wire (p : Pid) (es : List Eff) (r : Nat) (ph : Phase) (v : Chain) (tk : Bool) (j : Option Just)
+    (h : Eff.broadcast r ph v tk j ∈ es) : F3.EmittedValid.msgOf p r ph v j ∈ F3.EmittedValid.wireOf p es :=
+  F3.EmittedValid.bc_mem_wireOf h
+
+end HonestEmissionsParticipant
 end F3.Props.C01
